@@ -25,6 +25,12 @@ struct Session {
 };
 
 std::string jstr(const std::string& s);
+// the __typestr__ entries ak.behaviors.string registers (src/awkward/behaviors/string.py)
+inline awkward::util::TypeStrs default_typestrs() {
+  awkward::util::TypeStrs t;
+  t["byte"] = "byte"; t["char"] = "char"; t["bytestring"] = "bytes"; t["string"] = "string";
+  return t;
+}
 const rapidjson::Value& need(const rapidjson::Value& o, const char* k);
 int64_t geti(const rapidjson::Value& o, const char* k, int64_t dflt);
 std::string gets(const rapidjson::Value& o, const char* k, const std::string& dflt);
